@@ -18,4 +18,7 @@ pub open spec fn sc_remove(s0: Seq<u8>, idx: int, s1: Seq<u8>, r: Option<u8>) ->
 pub open spec fn sc_truncate(s0: Seq<u8>, new_len: int, s1: Seq<u8>) -> bool {
     new_len <= s0.len() ==> s1 =~= s0.subrange(0, new_len)
 }
+/// the first k bytes of p match s at position i / p occurs in s at position i (pointwise form)
+pub open spec fn sc_match_upto(p: Seq<u8>, s: Seq<u8>, i: int, k: int) -> bool { forall|n: int| 0 <= n < k ==> s[i + n] == #[trigger] p[n] }
+pub open spec fn sc_occurs_at(p: Seq<u8>, s: Seq<u8>, i: int) -> bool { 0 <= i && i + p.len() <= s.len() && sc_match_upto(p, s, i, p.len() as int) }
 // ---- end prelude/string_contracts.rs ----
